@@ -45,6 +45,25 @@ func (s segVal) build() *pdu.DeliverSM {
 }
 
 func coqSeg(s segVal) string {
+	// compact form (Model/CombinerRun.v: sg): the UDH as one string "<key hex><data hex>/<key hex><data hex>…"
+	keys := make([]int, 0, len(s.UDH))
+	n := 0
+	for k, v := range s.UDH {
+		keys = append(keys, int(k))
+		n += 3 + 2*len(v)
+	}
+	if n <= 900 && len(s.Src.No) <= 400 && len(s.Dst.No) <= 400 {
+		sort.Ints(keys)
+		var sb strings.Builder
+		for i, k := range keys {
+			if i > 0 {
+				sb.WriteByte('/')
+			}
+			fmt.Fprintf(&sb, "%02x%s", k, hex.EncodeToString(s.UDH[byte(k)]))
+		}
+		return fmt.Sprintf(`(sg %d %d "%s" %d %d "%s" %v "%s")`, s.Src.TON, s.Src.NPI, hex.EncodeToString([]byte(s.Src.No)),
+			s.Dst.TON, s.Dst.NPI, hex.EncodeToString([]byte(s.Dst.No)), s.UDH != nil, sb.String())
+	}
 	udh := "None"
 	if s.UDH != nil {
 		udh = "(Some " + coqKVs8(s.UDH) + ")"
@@ -106,6 +125,7 @@ type combineObs struct {
 	Trace    [][][]int // per input: callbacks, each a list of ids (arrival position, 0 = nil, -1 = unknown pointer)
 	PanicAt  int       // -1: none
 	PanicMsg string
+	Mutated  string // non-empty: a slice handed to the callback did not keep its content until the end of the run
 }
 
 func runCombine(table []segVal, hist []int) combineObs {
@@ -121,7 +141,16 @@ func runCombinePDUs(ps []*pdu.DeliverSM) combineObs {
 	obs := combineObs{PanicAt: -1}
 	ids := map[*pdu.DeliverSM]int{}
 	var cur [][]int
+	// every slice handed to the callback is kept (the slice itself, not a copy) next to a snapshot taken
+	// during the callback: a consumer that queues the slice must still find all N segments in it later
+	type keptSlice struct {
+		at          int
+		slice, snap []*pdu.DeliverSM
+	}
+	var kept []keptSlice
+	at := 0
 	add := pdu.CombineMultipartDeliverSM(func(parts []*pdu.DeliverSM) {
+		kept = append(kept, keptSlice{at, parts, append([]*pdu.DeliverSM(nil), parts...)})
 		l := make([]int, len(parts))
 		for i, p := range parts {
 			switch id, ok := ids[p]; {
@@ -138,13 +167,32 @@ func runCombinePDUs(ps []*pdu.DeliverSM) combineObs {
 	for j, p := range ps {
 		ids[p] = j + 1
 		cur = nil
+		at = j
 		if panicked, msg := guard(func() { add(p) }); panicked {
 			obs.PanicAt, obs.PanicMsg = j, msg
 			return obs
 		}
 		obs.Trace = append(obs.Trace, cur)
 	}
+	for _, k := range kept {
+		for i := range k.snap {
+			if obs.Mutated == "" && (len(k.slice) != len(k.snap) || k.slice[i] != k.snap[i]) {
+				obs.Mutated = fmt.Sprintf("the slice passed to the callback at input %d held PDU %d at position %d; after input %d it holds %s there",
+					k.at+1, ids[k.snap[i]], i+1, len(ps), describePtr(ids, k.slice[i]))
+			}
+		}
+	}
 	return obs
+}
+
+func describePtr(ids map[*pdu.DeliverSM]int, p *pdu.DeliverSM) string {
+	if p == nil {
+		return "nil"
+	}
+	if id, ok := ids[p]; ok {
+		return fmt.Sprintf("PDU %d", id)
+	}
+	return "a PDU that never arrived"
 }
 
 // projection classes: which of several arrivals of one segment class (same
@@ -220,12 +268,31 @@ type epoch struct {
 // the property only demands that nothing is delivered incomplete or mixed and
 // that nothing panics.
 func judge(table []segVal, hist []int, obs combineObs) (class, what, observed, required string) {
+	class, what, observed, required, _ = judgeFull(table, hist, obs)
+	return
+}
+
+// judgeInfo: what the oracle demanded liveness of.  lenient: the history holds something the
+// property leaves open (malformed numbering under some key, a malformed element, both elements in
+// one PDU); strict[k]: every segment of key k was well formed (liveness was demanded of k throughout).
+type judgeInfo struct {
+	strict    map[msgKey]bool
+	ambiguous bool
+	lenient   bool
+}
+
+func judgeFull(table []segVal, hist []int, obs combineObs) (class, what, observed, required string, info judgeInfo) {
 	if obs.PanicAt >= 0 {
-		return "combine/panic", "the combiner panicked", fmt.Sprintf("panic at input %d: %s", obs.PanicAt+1, obs.PanicMsg), "returns normally"
+		return "combine/panic", "the combiner panicked", fmt.Sprintf("panic at input %d: %s", obs.PanicAt+1, obs.PanicMsg), "returns normally", info
+	}
+	if obs.Mutated != "" {
+		return "combine/delivered-slice-changed-after-callback", "a slice handed to the callback lost a segment after the callback returned",
+			obs.Mutated, "the N segments passed stay in the slice passed (it is the consumer's from then on)", info
 	}
 	delivered := map[int]bool{}
 	open := map[msgKey]*epoch{}
 	strict := map[msgKey]bool{}
+	info.strict = strict
 	// an element pair (IEI 0 and IEI 8 in one PDU) may count for either key: liveness is then demanded of no key
 	ambiguous := false
 	for _, ix := range hist {
@@ -241,18 +308,18 @@ func judge(table []segVal, hist []int, obs combineObs) (class, what, observed, r
 		// ---- safety, for every callback made during this call
 		for _, cb := range cbs {
 			if len(cb) == 0 {
-				return "combine/empty-delivery", "callback invoked with no PDU", fmt.Sprintf("input %d: callback []", id), "a delivery carries at least one PDU"
+				return "combine/empty-delivery", "callback invoked with no PDU", fmt.Sprintf("input %d: callback []", id), "a delivery carries at least one PDU", info
 			}
 			hasCur := false
 			for _, x := range cb {
 				if x == 0 {
-					return "combine/incomplete-delivery", "an incomplete message was delivered (nil slot)", fmt.Sprintf("input %d: callback %v", id, cb), "all N segments present"
+					return "combine/incomplete-delivery", "an incomplete message was delivered (nil slot)", fmt.Sprintf("input %d: callback %v", id, cb), "all N segments present", info
 				}
 				if x < 0 || x > id {
-					return "combine/delivered-unseen", "a delivery contains a PDU that has not arrived", fmt.Sprintf("input %d: callback %v", id, cb), "only PDUs received so far"
+					return "combine/delivered-unseen", "a delivery contains a PDU that has not arrived", fmt.Sprintf("input %d: callback %v", id, cb), "only PDUs received so far", info
 				}
 				if delivered[x] {
-					return "combine/redelivery", "a PDU was delivered twice", fmt.Sprintf("input %d: callback %v, PDU %d delivered before", id, cb, x), "each PDU delivered at most once"
+					return "combine/redelivery", "a PDU was delivered twice", fmt.Sprintf("input %d: callback %v, PDU %d delivered before", id, cb, x), "each PDU delivered at most once", info
 				}
 				delivered[x] = true
 				if x == id {
@@ -260,7 +327,7 @@ func judge(table []segVal, hist []int, obs combineObs) (class, what, observed, r
 				}
 			}
 			if !hasCur {
-				return "combine/delivery-without-trigger", "a delivery was made that does not contain the PDU just received", fmt.Sprintf("input %d: callback %v", id, cb), "a delivery is triggered by, and contains, the arriving PDU"
+				return "combine/delivery-without-trigger", "a delivery was made that does not contain the PDU just received", fmt.Sprintf("input %d: callback %v", id, cb), "a delivery is triggered by, and contains, the arriving PDU", info
 			}
 			k0, r0, t0, _ := specHeader(table[hist[cb[0]-1]].UDH)
 			if (len(cb) == 1 && k0 != hOK) || k0 == hMalformed {
@@ -275,15 +342,15 @@ func judge(table []segVal, hist []int, obs combineObs) (class, what, observed, r
 				}
 				if kx != hOK || k0 != hOK || sx.Src != s0.Src || sx.Dst != s0.Dst || rx != r0 {
 					return "combine/mixed-delivery", "segments differing in source, destination or reference were delivered together",
-						fmt.Sprintf("input %d: callback %v", id, cb), "one (source, destination, reference) per delivery"
+						fmt.Sprintf("input %d: callback %v", id, cb), "one (source, destination, reference) per delivery", info
 				}
 				if tx != len(cb) || t0 != len(cb) {
 					return "combine/incomplete-delivery", "a delivery does not carry the N segments its segments announce",
-						fmt.Sprintf("input %d: callback %v, segment %d announces total %d", id, cb, x, tx), "exactly N segments"
+						fmt.Sprintf("input %d: callback %v, segment %d announces total %d", id, cb, x, tx), "exactly N segments", info
 				}
 				if qx != pos+1 {
 					return "combine/out-of-order", "segments are not passed in sequence-number order",
-						fmt.Sprintf("input %d: callback %v, position %d holds sequence %d", id, cb, pos+1, qx), "position i holds sequence i"
+						fmt.Sprintf("input %d: callback %v, position %d holds sequence %d", id, cb, pos+1, qx), "position i holds sequence i", info
 				}
 			}
 		}
@@ -292,10 +359,18 @@ func judge(table []segVal, hist []int, obs combineObs) (class, what, observed, r
 		case hNone:
 			if len(cbs) != 1 || len(cbs[0]) != 1 || cbs[0][0] != id {
 				return "combine/plain-not-immediate", "a non-concatenated PDU was not delivered at once, alone",
-					fmt.Sprintf("input %d: callbacks %v", id, cbs), fmt.Sprintf("exactly one callback [%d]", id)
+					fmt.Sprintf("input %d: callbacks %v", id, cbs), fmt.Sprintf("exactly one callback [%d]", id), info
 			}
 		case hMalformed:
-			// no particular delivery demanded (C11: a value or an ignored segment)
+			// no particular delivery demanded (C11: a value or an ignored segment); nor of any key the
+			// element could be read as belonging to (an over-long element read by its leading octets)
+			info.lenient = true
+			if d := s.UDH[0]; len(d) >= 3 {
+				strict[msgKey{s.Src, s.Dst, int(d[0])}] = false
+			}
+			if d := s.UDH[8]; len(d) >= 4 {
+				strict[msgKey{s.Src, s.Dst, int(d[0])<<8 | int(d[1])}] = false
+			}
 		case hOK:
 			k := msgKey{s.Src, s.Dst, ref}
 			if _, seen := strict[k]; !seen {
@@ -331,15 +406,20 @@ func judge(table []segVal, hist []int, obs combineObs) (class, what, observed, r
 				}
 				if !good {
 					return "combine/not-at-last-segment", "the last missing segment arrived but the message was not delivered (once, complete, in order)",
-						fmt.Sprintf("input %d: callbacks %v", id, cbs), fmt.Sprintf("exactly one callback, e.g. %v", want)
+						fmt.Sprintf("input %d: callbacks %v", id, cbs), fmt.Sprintf("exactly one callback, e.g. %v", want), info
 				}
 			} else if len(cbs) != 0 {
 				return "combine/premature-delivery", "a delivery was made although segments are still missing",
-					fmt.Sprintf("input %d: callbacks %v, have sequences %v of %d", id, cbs, keysOf(e.latest), e.total), "no callback"
+					fmt.Sprintf("input %d: callbacks %v, have sequences %v of %d", id, cbs, keysOf(e.latest), e.total), "no callback", info
 			}
 		}
 	}
-	return "", "", "", ""
+	info.ambiguous = ambiguous
+	info.lenient = info.lenient || ambiguous
+	for _, ok := range strict {
+		info.lenient = info.lenient || !ok
+	}
+	return "", "", "", "", info
 }
 
 func keysOf(m map[int]int) []int {
@@ -450,6 +530,13 @@ func keySets() map[string][]msgID {
 		// 8- and 16-bit forms: equal low octet, different value
 		"ref-8bit-vs-16bit": {{a(1, 1, "100"), a(1, 1, "200"), 5, 0}, {a(1, 1, "100"), a(1, 1, "200"), 0x0105, 1}, {a(1, 1, "100"), a(1, 1, "200"), 0x0500, 1}, {a(1, 1, "100"), a(1, 1, "200"), 255, 0}},
 		"empty-addresses":   {{a(0, 0, ""), a(0, 0, ""), 0, 0}, {a(0, 0, ""), a(0, 0, ""), 1, 0}, {a(0, 0, ""), a(0, 0, "0"), 0, 0}, {a(0, 0, "0"), a(0, 0, ""), 0, 0}},
+		// what a "normalising" key would merge: letter case (alphanumeric senders), a leading '+', leading zeros
+		"letters-and-case":      {{a(5, 0, "Bank"), a(1, 1, "200"), 9, 0}, {a(5, 0, "BANK"), a(1, 1, "200"), 9, 0}, {a(5, 0, "bank"), a(1, 1, "200"), 9, 0}, {a(5, 0, "Bank "), a(1, 1, "200"), 9, 0}},
+		"plus-and-leading-zero": {{a(1, 1, "100"), a(1, 1, "+200"), 9, 1}, {a(1, 1, "100"), a(1, 1, "200"), 9, 1}, {a(1, 1, "100"), a(1, 1, "0200"), 9, 1}, {a(1, 1, "100"), a(1, 1, "00200"), 9, 1}},
+		// octets a text-based key could mangle: NUL, invalid UTF-8, a multi-octet UTF-8 sequence against its Latin-1 reading
+		"nul-and-high-octets": {{a(1, 1, "1\x002"), a(1, 1, "9"), 9, 0}, {a(1, 1, "1\xff2"), a(1, 1, "9"), 9, 0}, {a(1, 1, "1\xc3\xa92"), a(1, 1, "9"), 9, 0}, {a(1, 1, "1\xef\xbf\xbd2"), a(1, 1, "9"), 9, 0}},
+		// every class of 16-bit reference value a key encoding could confuse, between one address pair
+		"reference-classes": {{a(1, 1, "100"), a(1, 1, "200"), 0xD800, 1}, {a(1, 1, "100"), a(1, 1, "200"), 0xDFFF, 1}, {a(1, 1, "100"), a(1, 1, "200"), 0xFFFD, 1}, {a(1, 1, "100"), a(1, 1, "200"), 0xFFFF, 1}},
 	}
 }
 
@@ -548,10 +635,15 @@ func c10One(r *Run, table []segVal, tkey string, hist []int, bucket string, b *c
 		key := fmt.Sprintf("%s|%v|%s", bucket, hist, tkey)
 		r.Count(key, nontrivial || obs.PanicAt >= 0, bucket)
 	}
-	if class, what, observed, required := judge(table, hist, obs); class != "" {
+	class, what, observed, required, info := judgeFull(table, hist, obs)
+	if class != "" {
 		r.Fail(class, what, histInput(table, hist), observed, required)
 	}
 	if !modelCase {
+		return obs
+	}
+	if info.lenient && obs.PanicAt < 0 {
+		lenientCase(r, table, hist, obs, info)
 		return obs
 	}
 	proj := projOf(table, hist)
@@ -589,6 +681,10 @@ func referenceCases(r *Run, table []segVal, hist []int, obs combineObs) {
 	if obs.PanicAt >= 0 {
 		return
 	}
+	if _, _, _, _, info := judgeFull(table, hist, obs); info.lenient {
+		lenientCase(r, table, hist, obs, info)
+		return
+	}
 	proj := projOf(table, hist)
 	var refs []string
 	// the set-style specification is quadratic in the message size: 255-part messages go through the trace only
@@ -622,6 +718,35 @@ func referenceCases(r *Run, table []segVal, hist []int, obs combineObs) {
 	}
 	r.Case("combine+reference+set-spec "+histInput(table, hist),
 		fmt.Sprintf("chk_history %s %s %s %s %s", coqSegTable(table), coqNatList(hist), coqNatList(proj), coqTrace(proj, obs.Trace), coqList(refs)))
+}
+
+// lenientCase: the model case of a history that holds something C10/C11 leave open (malformed
+// numbering, a malformed element, both elements in one PDU: ignored? restarted? which element wins?).
+// Compared: the model returns normally, and for every key all of whose segments are well formed the
+// callbacks at its arrivals are the model's, the reference combiner's and the set-style specification's.
+func lenientCase(r *Run, table []segVal, hist []int, obs combineObs, info judgeInfo) {
+	proj := projOf(table, hist)
+	var refs []string
+	if !info.ambiguous && len(table) <= 60 && len(hist) <= 90 {
+		seen := map[msgKey]bool{}
+		for ki, s := range table {
+			kind, ref, _, _ := specHeader(s.UDH)
+			k := msgKey{s.Src, s.Dst, ref}
+			if kind != hOK || seen[k] || !info.strict[k] {
+				continue
+			}
+			seen[k] = true
+			var sub [][][]int
+			for j, ix := range hist {
+				if k2, r2, _, _ := specHeader(table[ix].UDH); k2 == hOK && (msgKey{table[ix].Src, table[ix].Dst, r2}) == k {
+					sub = append(sub, obs.Trace[j])
+				}
+			}
+			refs = append(refs, fmt.Sprintf("(%d%%nat, %s)", ki, coqTrace(proj, sub)))
+		}
+	}
+	r.Case("combine (lenient: returns normally + well-formed keys) "+histInput(table, hist),
+		fmt.Sprintf("chk_history_lenient %s %s %s %s", coqSegTable(table), coqNatList(hist), coqNatList(proj), coqList(refs)))
 }
 
 func corrC10(r *Run) {
@@ -667,12 +792,31 @@ func corrC10(r *Run) {
 	// duplicate starts a fresh, incomplete entry and must not fire (C10_at_most_once, C10_duplicate_after_delivery)
 	shapes := []shape{{1, 1, 1, 1, 0}, {1, 2, 1, 1, 0}, {1, 3, 1, 1, 0}, {1, 2, 2, 1, 0}, {1, 3, 2, 1, 0}, {1, 4, 0, 1, 0}, {2, 2, 0, 1, 0}, {2, 2, 1, 1, 0}, {3, 2, 0, 1, 0}, {2, 3, 0, 1, 0}}
 	if r.Quick {
-		shapes = append(shapes, shape{2, 2, 2, 3, 0}, shape{2, 3, 1, 9, 0}, shape{3, 2, 1, 9, 0})
+		shapes = append(shapes, shape{2, 2, 2, 6, 0}, shape{2, 3, 1, 18, 0}, shape{3, 2, 1, 18, 0})
 	} else {
 		shapes = append(shapes, shape{2, 2, 2, 1, 0}, shape{2, 3, 1, 2, 0}, shape{3, 2, 1, 2, 0}, shape{4, 2, 0, 8, 0}, shape{3, 3, 0, 60, 0})
 	}
+	// the quick tier takes, per shape, the eight original key sets and two of the four round-5 ones (rotating with shape and seed);
+	// single-message shapes do not depend on what separates messages: two key sets (one per reference form)
+	round5 := []string{"letters-and-case", "nul-and-high-octets", "plus-and-leading-zero", "reference-classes"}
+	isRound5 := map[string]bool{}
+	for _, n := range round5 {
+		isRound5[n] = true
+	}
 	for si, sh := range shapes {
 		names := setNames
+		if r.Quick {
+			names = nil
+			for _, n := range setNames {
+				if !isRound5[n] {
+					names = append(names, n)
+				}
+			}
+			names = append(names, round5[(si+int(r.Seed))%4], round5[(si+int(r.Seed)+2)%4])
+			if sh.m == 1 {
+				names = []string{"digit-prefix-dst-vs-ref", "equal-ref-different-src"}
+			}
+		}
 		if sh.m*sh.n+sh.dups >= 7 {
 			// large shapes: rotate through the key sets instead of the full product
 			names = []string{setNames[(si+int(r.Seed))%len(setNames)], "digit-prefix-dst-vs-ref"}
@@ -751,7 +895,7 @@ func corrC10(r *Run) {
 	}
 
 	// ---- random histories beyond
-	n := r.N(1500, 8000)
+	n := r.N(550, 8000)
 	for i := 0; i < n; i++ {
 		name := setNames[r.Rng.Intn(len(setNames))]
 		ks := sets[name]
@@ -847,6 +991,11 @@ func corrC10(r *Run) {
 	// ---- long histories and large totals (c10_long.go)
 	c10LongAndLarge(r)
 
+	// ---- what separates messages, at scale (c10_keys.go): reference classes, many messages open at once, two instances
+	c10RefClasses(r)
+	c10Open(r)
+	c10TwoInstances(r)
+
 	// ---- end to end: real ComposeMultipartShortMessage output through the combiner (c10_e2e.go)
 	c10EndToEnd(r)
 
@@ -875,6 +1024,9 @@ func corrC10(r *Run) {
 			r.Case(fmt.Sprintf("beq_key %+v %+v", a, b), fmt.Sprintf("Bool.eqb (beq_key %s %s) %s", coqKey(a), coqKey(b), coqBool(eq)))
 		}
 	}
+	spreadHeavy(r, func(e string) bool {
+		return strings.HasPrefix(e, "chk_long ") || (strings.HasPrefix(e, "chk_open ") && (strings.Contains(e, " 1000%nat") || strings.Contains(e, " 1025%nat") || strings.Contains(e, "00%nat")))
+	})
 }
 
 func (r *Rng) perm(n int) []int {
